@@ -4,6 +4,7 @@ package main
 
 import (
 	"fmt"
+	"go/token"
 	"go/types"
 	"sort"
 	"strings"
@@ -487,7 +488,6 @@ func c17StringTransform(c *Ctx, a *accInfo) {
 	r.Expect("C17-K5-string-accessors", 6)
 }
 
-
 // c17Provenance: K6 — what an accessor returns derives only from the option it reads (through the lookup or
 // the Get* helper), from constants and from its own non-receiver parameters (the caller's default). Another
 // part of the packet (a header field, another option) mixed in on some path makes the accessor disagree with
@@ -566,4 +566,146 @@ func c17Provenance(c *Ctx, a *accInfo, helpers map[*ssa.Function]*accInfo) {
 	}
 	r.Check(bad == "", "C17-K6", fmt.Sprintf("%s (code %d): the result derives only from that option, constants and the caller's default", shortName(f), a.code), c.P.pos(f.Pos()), "dependency walk of every returned value stops at the option lookup",
 		"a returned value depends on "+bad+" without going through the option lookup: on some path the accessor reports something other than the interpretation of option "+fmt.Sprint(a.code))
+}
+
+// c17Ctors: K9 — "setting an option through its typed constructor and reading it back returns the value that was
+// set": every exported Opt* constructor of dhcpv4 stores the caller's argument itself as the option value —
+// converted to the value type, wrapped in a composite literal, or handed whole to one of the reviewed helper
+// functions — and not a value assembled by calling methods on a local (which may drop, reorder or rewrite elements).
+var c17CtorHelpers = map[string]string{
+	"dhcpv4.OptionsFromList": "relay-agent sub-options are a map keyed by code by design (one value per code, documented)",
+	"dhcpv4.OptGeneric":      "delegation to the generic constructor",
+}
+
+func c17Ctors(c *Ctx) {
+	r := c.R
+	n := 0
+	for _, f := range c.P.ModuleFuncs() {
+		if pkgPathOf(f) != modPath+"/dhcpv4" || f.Parent() != nil || f.Signature.Recv() != nil || !token.IsExported(f.Name()) || !strings.HasPrefix(f.Name(), "Opt") {
+			continue
+		}
+		res := f.Signature.Results()
+		if res.Len() != 1 || !namedIs(res.At(0).Type(), modPath+"/dhcpv4", "Option") {
+			continue
+		}
+		n++
+		name := shortName(f)
+		var form func(v ssa.Value, d int) string
+		var formAlloc func(al *ssa.Alloc, d int) string
+		formAlloc = func(al *ssa.Alloc, d int) string {
+			for _, ref := range *al.Referrers() {
+				switch u := ref.(type) {
+				case *ssa.FieldAddr:
+					for _, r2 := range *u.Referrers() {
+						if st, ok := r2.(*ssa.Store); ok && st.Addr == ssa.Value(u) {
+							if s := form(st.Val, d+1); s != "" {
+								return s
+							}
+						} else {
+							return "field of a local used by " + r2.String()
+						}
+					}
+				case *ssa.IndexAddr:
+					for _, r2 := range *u.Referrers() {
+						if st, ok := r2.(*ssa.Store); ok && st.Addr == ssa.Value(u) {
+							if s := form(st.Val, d+1); s != "" {
+								return s
+							}
+						}
+					}
+				case *ssa.Store:
+					if u.Addr == ssa.Value(al) {
+						if s := form(u.Val, d+1); s != "" {
+							return s
+						}
+					}
+				case *ssa.UnOp, *ssa.Slice, *ssa.DebugRef:
+				case ssa.CallInstruction:
+					return "a local variable filled by " + calleeName(u.Common())
+				default:
+					return "a local variable used by " + ref.String()
+				}
+			}
+			return ""
+		}
+		form = func(v ssa.Value, d int) string {
+			if d > 8 {
+				return "too deep"
+			}
+			switch t := v.(type) {
+			case *ssa.MakeInterface:
+				return form(t.X, d+1)
+			case *ssa.ChangeType:
+				return form(t.X, d+1)
+			case *ssa.Convert:
+				return form(t.X, d+1)
+			case *ssa.Parameter, *ssa.Const:
+				return ""
+			case *ssa.Slice:
+				return form(t.X, d+1)
+			case *ssa.UnOp:
+				if t.Op == token.MUL {
+					if al, ok := t.X.(*ssa.Alloc); ok {
+						return formAlloc(al, d)
+					}
+				}
+			case *ssa.Call:
+				if sf := t.Call.StaticCallee(); sf != nil {
+					if _, ok := c17CtorHelpers[shortName(sf)]; ok {
+						for _, a := range t.Call.Args {
+							if s := form(a, d+1); s != "" {
+								return s
+							}
+						}
+						return ""
+					}
+					if !inModule(sf) {
+						// net.IP.To4 and the like: conversions of the argument
+						for _, a := range t.Call.Args {
+							if s := form(a, d+1); s != "" {
+								return s
+							}
+						}
+						return ""
+					}
+					return "the result of " + shortName(sf)
+				}
+			case *ssa.Alloc:
+				// address of a composite literal (pointer-typed values)
+				return formAlloc(t, d+1)
+			}
+			return "a computed value (" + shortDesc(v, 3) + ")"
+		}
+		bad := ""
+		nVal := 0
+		allInstrs(f, func(in ssa.Instruction) {
+			st, ok := in.(*ssa.Store)
+			if !ok {
+				return
+			}
+			fa, ok := st.Addr.(*ssa.FieldAddr)
+			if !ok || !namedIs(fa.X.Type(), modPath+"/dhcpv4", "Option") {
+				return
+			}
+			if derefStruct(fa.X.Type()).Field(fa.Field).Name() != "Value" {
+				return
+			}
+			nVal++
+			if s := form(st.Val, 0); s != "" && bad == "" {
+				bad = s
+			}
+		})
+		if nVal == 0 {
+			// delegation: returns the result of another constructor / helper
+			for _, ret := range returnsOf(f) {
+				if s := form(ret.Results[0], 0); s != "" && bad == "" {
+					bad = s
+				}
+			}
+		}
+		r.Check(bad == "", "C17-K9", name+": stores the caller's value itself", c.P.pos(f.Pos()), "value form: parameter, conversion, composite literal or reviewed helper",
+			"the option value is "+bad+": what is read back need not be what was set (elements dropped, reordered or rewritten)")
+	}
+	r.Count("C17-K9-constructors", n)
+	r.Expect("C17-K9-constructors", 30)
 }
